@@ -208,6 +208,7 @@ GRAMMARS_OK = ["@export\nA = 'x';\n", "@export\nA = 'y';\n", "@export\nA = 'x' b
 GRAMMARS_BAD = ["@export\nA = 'x'", "A = ;;;", "@export A = !b:B; B='x';", "", "@export\nA = >Missing;\n"]
 PREFIXES = ['', 'use a;', 'use a;\nuse b;', 'use a;\n', '// p', 'pub struct X;', 'use a;\nuse b;\nuse c;']
 K1_PAIR = ("@export\nA = 'x';\n# mv48hbz4\n", "@export\nA = 'y';\n# pxz11qsd\n")
+K1P_PAIR = ('use a;\n// kpe7aavz\n', 'use a;\n')
 
 
 def fs_histories(seed, tier):
@@ -229,6 +230,7 @@ def fs_histories(seed, tier):
             hs.append((mode, ['D' if (o == 'N' and mode == 'dir') else o for o in d]))
     # known finding K1 (two grammars with equal CRC-32) is replayed deterministically
     hs.append(('file', ['GK0', 'R', 'GK1', 'R']))
+    hs.append(('file', ['G0', 'PK0', 'R', 'PK1', 'R']))
     while len(hs) < n:
         k = rng.randint(2, 12)
         ops = []
@@ -271,6 +273,8 @@ def fs_lines(hs):
                 lines.append('G ' + hx(GRAMMARS_OK[int(o[1:])]))
             elif o[0] == 'B':
                 lines.append('G ' + hx(GRAMMARS_BAD[int(o[1:])]))
+            elif o.startswith('PK'):
+                lines.append('P ' + hx(K1P_PAIR[int(o[2:])]))
             elif o[0] == 'P':
                 lines.append('P ' + hx(PREFIXES[int(o[1:])]))
     return lines
